@@ -33,6 +33,8 @@ ASSUMPTIONS = [
     "a name rebound locally (parameter/assignment) shadows the module binding and is skipped",
 ]
 
+# top-level modules the package may rely on unconditionally: the standard library and the hard dependencies of setup.py
+REQUIRED_TOPLEVEL = set(sys.stdlib_module_names) | {"numpy", "scipy", "h5py"}
 CATCHING = {"ImportError", "AttributeError", "ModuleNotFoundError", "Exception", "BaseException"}
 # modules whose import executes data files that are emptied in this sandbox
 DATA_MODULES = ("pyrex.custom.ara", "pyrex.custom.arianna", "pyrex.custom.irex")
@@ -74,16 +76,25 @@ class _Sites(ast.NodeVisitor):
         self.bind = {}            # name -> dotted reference string it is bound to
         self.sites = []           # (lineno, dotted reference, guarded, kind)
         self.guard = 0
+        self.hasattr_guards = []
         self.group = None         # (group id, branch) of the innermost catching try
         self.ngroups = 0
         self.local_stack = []
         pkg = relfile[:-3].replace(os.sep, ".")
         self.pkg = pkg.rsplit(".", 1)[0] if not pkg.endswith("__init__") else pkg[:-9]
 
-    def _g(self):
-        """None = unguarded; True = under an availability flag; (gid, branch) = try alternatives."""
-        if self.guard > 0:
+    def _g(self, ref):
+        """None = unguarded; True = under an availability flag; (gid, branch) = try alternatives.
+
+        An `if <x>_available` / `if x.__available__` flag guards references to modules outside the required set (the
+        optional dependency it announces); `if hasattr(mod, 'name')` guards exactly mod.name.  Neither guards anything else
+        in its body -- in particular `hasattr(obj, ...)` on an arbitrary object guards nothing."""
+        top = ref.split(".")[0]
+        if self.guard > 0 and top not in REQUIRED_TOPLEVEL:
             return True
+        for g in self.hasattr_guards:
+            if ref == g or ref.startswith(g + "."):
+                return True
         return self.group
 
     # imports --------------------------------------------------------------
@@ -91,7 +102,7 @@ class _Sites(ast.NodeVisitor):
         for a in node.names:
             if _is_internal(a.name):
                 continue
-            self.sites.append((node.lineno, a.name, self._g(), "import"))
+            self.sites.append((node.lineno, a.name, self._g(a.name), "import"))
             if a.asname:
                 self.bind[a.asname] = a.name
             else:
@@ -102,10 +113,10 @@ class _Sites(ast.NodeVisitor):
             return
         for a in node.names:
             if a.name == "*":
-                self.sites.append((node.lineno, node.module, self._g(), "import"))
+                self.sites.append((node.lineno, node.module, self._g(node.module), "import"))
                 continue
             ref = node.module + "." + a.name
-            self.sites.append((node.lineno, ref, self._g(), "from-import"))
+            self.sites.append((node.lineno, ref, self._g(ref), "from-import"))
             self.bind[a.asname or a.name] = ref
 
     # guards -----------------------------------------------------------------
@@ -139,15 +150,25 @@ class _Sites(ast.NodeVisitor):
 
     def visit_If(self, node):
         # `if <something>_available` / `if hasattr(...)` -- availability flags guard the body
-        txt = ast.dump(node.test)
-        flag = ("available" in txt) or ("hasattr" in txt)
+        flag = any("available" in (getattr(n, "id", "") or getattr(n, "attr", "") or "")
+                   for n in ast.walk(node.test) if isinstance(n, (ast.Name, ast.Attribute)))
+        added = []
+        for n in ast.walk(node.test):
+            if (isinstance(n, ast.Call) and isinstance(n.func, ast.Name) and n.func.id == "hasattr" and len(n.args) == 2
+                    and isinstance(n.args[0], ast.Name) and isinstance(n.args[1], ast.Constant)
+                    and isinstance(n.args[1].value, str) and n.args[0].id in self.bind
+                    and not any(n.args[0].id in l for l in self.local_stack)):
+                added.append(self.bind[n.args[0].id] + "." + n.args[1].value)
         self.visit(node.test)
         if flag:
             self.guard += 1
+        self.hasattr_guards.extend(added)
         for s in node.body:
             self.visit(s)
         if flag:
             self.guard -= 1
+        for _ in added:
+            self.hasattr_guards.pop()
         for s in node.orelse:
             self.visit(s)
 
@@ -191,7 +212,7 @@ class _Sites(ast.NodeVisitor):
             root = cur.id
             if root in self.bind and not any(root in l for l in self.local_stack):
                 ref = self.bind[root] + "." + ".".join(reversed(chain))
-                self.sites.append((node.lineno, ref, self._g(), "attr"))
+                self.sites.append((node.lineno, ref, self._g(ref), "attr"))
                 return
         self.generic_visit(node)
 
